@@ -70,11 +70,9 @@ def applyTweaks : List Tweak → Point → Nat → Nat → Option (Point × Nat 
     | none => none
     | some (q, gacc, tacc) => applyTweaks rest q gacc tacc
 
-/-- `AggregateKeys(keys, sort, WithKeysHash/WithUniqueKeyIndex (recomputed), tweak option)` -/
-def aggregateKeys (keys : List Point) (sort : Bool) (tw : TweakOpt) : Option AggKey :=
-  let keys := if sort then sortKeys keys else keys
-  let kh := keyHashFingerprint keys sort
-  let sk := secondKey keys
+/-- `AggregateKeys(keys, sort, WithKeysHash(kh), WithUniqueKeyIndex(idx), tweak option)`: `keys` already in
+    the order used (sorted when `sort`), `sk` = the key at `idx` (none for −1). -/
+def aggregateKeysWith (keys : List Point) (kh : Bytes) (sk : Option Bytes) (tw : TweakOpt) : Option AggKey :=
   let q := keys.foldl (fun acc k => add acc (mul (aggregationCoefficient sk k kh) k)) .inf
   let tweaks : List Tweak := match tw with
     | .plain ts => ts
@@ -83,6 +81,11 @@ def aggregateKeys (keys : List Point) (sort : Bool) (tw : TweakOpt) : Option Agg
   match applyTweaks tweaks q 1 0 with
   | none => none
   | some (f, gacc, tacc) => some ⟨f, q, gacc, tacc⟩
+
+/-- `AggregateKeys(keys, sort, tweak option)` with key hash and second-key index derived from the keys. -/
+def aggregateKeys (keys : List Point) (sort : Bool) (tw : TweakOpt) : Option AggKey :=
+  let keys := if sort then sortKeys keys else keys
+  aggregateKeysWith keys (keyHashFingerprint keys sort) (secondKey keys) tw
 
 /-! ### nonces.go -/
 
